@@ -237,7 +237,33 @@ def check_bulk_fetch(ctx: Ctx, rep: Report, wm: WalkModel, r0: str = "C02-R0", r
     # the caller's roots, possibly through list()/tuple()/sorted() copies (the walk sorts them itself); the
     # parameter may only be re-bound to such a copy of itself
     rebinds = mdefs.all_values(meth.params[1])
-    roots_ok = roots_arg is not None and is_order_preserving_of(mdefs.expand(roots_arg, stop=[meth.params[1]]), meth.params[1]) and all(is_order_preserving_of(v, meth.params[1]) for v in rebinds)
+
+    def alternatives(expr: ast.AST, depth: int = 0) -> List[ast.AST]:
+        """Values an argument may have at the call: locals followed through all their definitions, conditional
+        expressions split; a None alternative is dropped when `if <name> is None: raise` refuses it before the call."""
+        expr = strip_casts(expr)
+        if depth > 4:
+            return [expr]
+        if isinstance(expr, ast.IfExp):
+            return alternatives(expr.body, depth + 1) + alternatives(expr.orelse, depth + 1)
+        if isinstance(expr, ast.Name) and expr.id != meth.params[1]:
+            vals = mdefs.all_values(expr.id)
+            if not vals:
+                return [expr]
+            out: List[ast.AST] = []
+            for v in vals:
+                out += alternatives(v, depth + 1)
+            guarded = any(
+                isinstance(n, ast.If) and norm(n.test) in (f"{expr.id} is None", f"not {expr.id}") and n.body and isinstance(n.body[-1], ast.Raise) and n.lineno < call.lineno
+                for n in own_nodes(meth.node)
+            )
+            if guarded:
+                out = [v for v in out if not (isinstance(v, ast.Constant) and v.value is None)]
+            return out
+        return [expr]
+
+    alts = alternatives(roots_arg) if roots_arg is not None else []
+    roots_ok = bool(alts) and all(is_order_preserving_of(a, meth.params[1]) for a in alts) and all(is_order_preserving_of(v, meth.params[1]) for v in rebinds)
     fac_call = b[wm.fetch_param]
     fac_arg_ok = len(fac_call.args) == 1 and norm(fac_call.args[0]) == "bulk_size" and "bulk_size" in meth.params
     rep.check(roots_ok and fac_arg_ok, r0, meth.site(call), f"{meth.name}: walks the caller's roots with a fetcher built from the caller's bulk size", f"{norm(call)[:90]}", key=f"{meth.key}|delegation")
